@@ -739,9 +739,13 @@ func run(r *core.Run) {
 	r.Extra("max_depth", maxD)
 	r.Bound("element_values", "constructors over {1,2,3} (and 97,98 for bytes); appended/inserted markers 0,5,7,8,9,122")
 	r.Bound("map_keys", "a b c k, each spelled as symbol and as string")
+	refusedFamily(r) // refused.go
 }
 
 func replay(v core.Violation) (bool, string) {
+	if rk, err := core.CaseOf[refusedKase](v); err == nil && rk.Kind == "refused" {
+		return replayRefused(rk)
+	}
 	k, err := core.CaseOf[kase](v)
 	if err != nil {
 		return false, err.Error()
